@@ -218,7 +218,15 @@ func (fv *FV) evalExpr(st *State, e ast.Expr) Term {
 		fv.safety(st, "slice["+fv.src(x)+"]", and(cs...), "slice bounds: "+fv.src(x), x.Pos())
 		r := fv.sliceTerm(a, lo, hi, max)
 		// name the result to keep terms small
-		return fv.nameTerm(st, "sl", r)
+		r = fv.nameTerm(st, "sl", r)
+		if fv.usesBag() && elemType(a.T) != nil {
+			// ground instance: the range [lo, hi+1) is the range [lo, hi) plus the element at hi (when hi < len)
+			short := fv.bagTerm(st, r, "0", "(slen "+r.S+")")
+			long := fv.bagTerm(st, r, "0", "(+ (slen "+r.S+") 1)")
+			last := fv.indexTerm(st, a, Term{S: h, Sort: sInt})
+			fv.define(st, implies(app("<", h, "(slen "+a.S+")"), eq(long.S, sto(short.S, last.S, app("+", sel(short.S, last.S), "1")))))
+		}
+		return r
 	case *ast.CallExpr:
 		rs := fv.evalCall(st, x)
 		if len(rs) != 1 {
@@ -302,23 +310,18 @@ func (fv *FV) evalBinary(st *State, x *ast.BinaryExpr) Term {
 		l := fv.evalCond(st, x.X)
 		// right operand is evaluated only under l (&&) or !l (||): obligations inside it get that guard
 		sub := st.clone()
+		skip := st.clone()
 		if x.Op == token.LAND {
-			sub.guard = fv.newGuard(st, l)
+			sub.guard = fv.newGuard(sub, l)
+			skip.guard = fv.newGuard(skip, not(l))
 		} else {
-			sub.guard = fv.newGuard(st, not(l))
+			sub.guard = fv.newGuard(sub, not(l))
+			skip.guard = fv.newGuard(skip, l)
 		}
-		nf := len(sub.facts)
 		r := fv.evalCond(sub, x.Y)
-		// facts assumed while evaluating the right operand are guarded; keep them
-		st.facts = append(st.facts, sub.facts[nf:]...)
-		for k, v := range sub.heap {
-			if cur, ok := st.heap[k]; !ok || cur.S != v.S {
-				// right operands with side effects on the heap are not supported
-				if k != "alloc" {
-					fv.fail(x.Pos(), "side effect in the right operand of %s", x.Op)
-				}
-			}
-		}
+		// the right operand may have side effects (a call): join the two ways of getting past the operator
+		m := fv.merge(sub, skip)
+		*st = *m
 		if x.Op == token.LAND {
 			return Term{S: and(l, r), Sort: sBool}
 		}
